@@ -148,6 +148,9 @@ void h_m_error_reset(void)
  */
 static int ghost_kernel_calls;
 static int ghost_rows_per_system;
+#ifdef DET_SYMBOLIC
+static double ghost_det;
+#endif
 
 double *_vnacal_new_solve_calc_weights(vnacal_new_solve_state_t *vnssp)
 {
@@ -184,7 +187,11 @@ double complex _vnacommon_mldivide(double complex *x, double complex *a,
 	if (r < m)
 	    x[r] = 1.0;
     ++ghost_kernel_calls;
+#ifdef DET_SYMBOLIC
+    return ghost_det;		/* C19 call-site clause: any determinant for the LAST system */
+#else
     return 1.0;
+#endif
 }
 
 /*
@@ -294,6 +301,30 @@ void h_simple_weight_index(void)
     ASSUME(vs_start_frequency(&vnss, 0) == 0);
     ghost_x_base = x;
     ghost_vnp = vnp;
+#ifdef DET_SYMBOLIC
+    {
+	IN(double, det);
+
+	/* zero or NaN (a zero pivot in _vnacommon_lu) or a normal number; inf/subnormal: unspecified, excluded */
+	ASSUME(det == 0.0 || det != det || __builtin_isnormal(det));
+	ghost_det = det;
+	ghost_err_reset();
+	rc = _vnacal_new_solve_simple(&vnss, x, 2 * unknowns);
+	REACH("solve_simple returned (symbolic determinant)");
+	if (det == 0.0 || det != det) {
+	    REACH("singular system");
+	    CHECK(rc == -1 && ghost_err_calls == 1 && ghost_err_category == VNAERR_MATH && errno == EDOM,
+		    "a system whose elimination met a zero pivot is reported once as a math error (EDOM)");
+	    CHECK(ghost_kernel_calls == 1, "and the solve stops there");
+	} else {
+	    CHECK(rc == 0 && ghost_err_calls == 0 && ghost_kernel_calls == 2, "regular systems solve silently");
+	}
+	vs_free(&vnss);
+	vnacal_new_free(vnp);
+	vnacal_free(vcp);
+	return;
+    }
+#endif
     rc = _vnacal_new_solve_simple(&vnss, x, 2 * unknowns);
     REACH("solve_simple returned");
 #ifdef OVERDETERMINED
